@@ -94,6 +94,22 @@ class C15(Check):
         "syncWithChain is retried forever) and the fork point lies inside the stored window",
     ]
     PARTIAL_CLAUSES = []
+    EXTRA_TRUSTED = ["lib/extract_c15.py: go/ast reading of disconnectBlock (incremental stamp or single literal) and of "
+                     "MaxReorgDepth / staleHeight; when a shape is not recognised the fact is determined by running the witness "
+                     "scenario (connect 1..n, disconnect n, read back SyncedTo / BlockHash; prune boundary) on the code built "
+                     "from the repository (harness/cmd/probe-c15); evidence field facts_source says which path ran"]
+
+    def extra_coverage(self, cases):
+        # which path of lib/extract_c15.py produced the regenerated facts of this run
+        src, detail = "unknown", ""
+        try:
+            txt = open(os.path.join(COQ, "Generated", "SyncFacts.v")).read()
+            m = re.search(r"\(\* facts source: (\w+)(.*?)\*\)", txt, re.S)
+            if m:
+                src, detail = m.group(1), re.sub(r"\s+", " ", m.group(2)).strip()
+        except OSError:
+            pass
+        return dict(facts_source=src, facts_source_detail=detail)
 
     def gen_args(self, tier, seed):
         nn = self.N_QUICK if tier == "quick" else self.N_THOROUGH
